@@ -296,9 +296,16 @@ func cmdCheck(args []string) {
 	}
 	_ = mu
 	_ = wg
+	known := loadKnown()
+	for _, ob := range obs {
+		for i := range known {
+			if known[i].Property == *prop && known[i].Obligation == ob.Name && known[i].Status == "open" {
+				ob.Short = true
+			}
+		}
+	}
 	solveAll(obs, *tier)
 
-	known := loadKnown()
 	baseline := loadBaseline()[*prop]
 	var reports []obReport
 	var failed, undecided []*Obligation
@@ -320,7 +327,13 @@ func cmdCheck(args []string) {
 			discharged++
 			continue
 		}
-		if ob.Result == "sat" || baseline[ob.Name] || baselineHas(baseline, ob.Name) {
+		isKnown := false
+		for i := range known {
+			if known[i].Property == *prop && known[i].Obligation == ob.Name && known[i].Status == "open" {
+				isKnown = true
+			}
+		}
+		if ob.Result == "sat" || baseline[ob.Name] || baselineHas(baseline, ob.Name) || isKnown {
 			failed = append(failed, ob)
 		} else {
 			undecided = append(undecided, ob)
